@@ -1,1 +1,147 @@
-From Coq Require Import ZArith List.
+(* Common lemmas for the proofs about the Json model: suffixes, line-break counting, the [good]
+   predicate that carries totality, bounds safety and the error position through the tokenizer
+   and the parser in one induction. *)
+From Coq Require Import ZArith List Bool Lia.
+Require Import ZifyBool.
+From Json Require Import JsonSpec JsonModel.
+Import ListNotations.
+Local Open Scope Z_scope.
+
+(* ---------- suffixes ---------- *)
+Definition suffix (r' r : list Z) : Prop := exists pre, r = pre ++ r'.
+
+Lemma suffix_refl r : suffix r r.
+Proof. exists []. reflexivity. Qed.
+
+Lemma suffix_cons c t : suffix t (c :: t).
+Proof. exists [c]. reflexivity. Qed.
+
+Lemma suffix_trans a b c : suffix a b -> suffix b c -> suffix a c.
+Proof.
+  intros [p Hp] [q Hq]. exists (q ++ p). subst. now rewrite app_assoc.
+Qed.
+
+Lemma suffix_length r' r : suffix r' r -> (length r' <= length r)%nat.
+Proof. intros [p ->]. rewrite app_length. lia. Qed.
+
+(* ---------- line breaks ---------- *)
+Lemma peek_hd0 r : peek r = hd0 r.
+Proof. reflexivity. Qed.
+
+Lemma nbreaks_nonneg s : 0 <= nbreaks s.
+Proof.
+  induction s as [|c t IH]; cbn [nbreaks]; [lia|].
+  destruct (c =? 10); [lia|]. destruct (c =? 13); [|lia]. destruct (hd0 t =? 10); lia.
+Qed.
+
+Lemma nbreaks_plain c t : c <> 10 -> c <> 13 -> nbreaks (c :: t) = nbreaks t.
+Proof.
+  intros H1 H2. cbn [nbreaks].
+  destruct (c =? 10) eqn:E1; [lia|]. destruct (c =? 13) eqn:E2; [lia|]. reflexivity.
+Qed.
+
+Lemma nbreaks_lf t : nbreaks (10 :: t) = 1 + nbreaks t.
+Proof. reflexivity. Qed.
+
+Lemma nbreaks_crlf t : nbreaks (13 :: 10 :: t) = 1 + nbreaks t.
+Proof. reflexivity. Qed.
+
+Lemma nbreaks_cr t : hd0 t <> 10 -> nbreaks (13 :: t) = 1 + nbreaks t.
+Proof.
+  intros H. cbn [nbreaks]. cbn. destruct (hd0 t =? 10) eqn:E; [lia|reflexivity].
+Qed.
+
+(* the natural reading of [position_inside]: line breaks before the offset, unless the offset cuts a CR LF pair *)
+Lemma nbreaks_cons c t :
+  nbreaks (c :: t) = if c =? 10 then 1 + nbreaks t
+                     else if c =? 13 then (if hd0 t =? 10 then nbreaks t else 1 + nbreaks t)
+                     else nbreaks t.
+Proof. reflexivity. Qed.
+
+Lemma nbreaks_app pre post :
+  cuts_crlf pre post = false -> nbreaks (pre ++ post) = nbreaks pre + nbreaks post.
+Proof.
+  unfold cuts_crlf. induction pre as [|c p IH]; intros H; [reflexivity|].
+  assert (Hp : p <> [] -> (hd0 (rev p) =? 13) && (hd0 post =? 10) = false).
+  { intros Hne. cbn [rev] in H. destruct (rev p) as [|x xs] eqn:Er.
+    - apply (f_equal (@rev Z)) in Er. rewrite rev_involutive in Er. now subst.
+    - exact H. }
+  change ((c :: p) ++ post) with (c :: (p ++ post)).
+  rewrite (nbreaks_cons c (p ++ post)), (nbreaks_cons c p).
+  destruct p as [|d p'].
+  - cbn [app hd0 nbreaks rev] in *.
+    destruct (c =? 10) eqn:E10; [lia|]. destruct (c =? 13) eqn:E13; [|lia].
+    cbn in H. rewrite H. cbn. lia.
+  - rewrite IH by (apply Hp; discriminate). cbn [app hd0].
+    destruct (c =? 10); [lia|]. destruct (c =? 13); [|lia]. destruct (d =? 10); lia.
+Qed.
+
+(* ---------- the cursor moved from (l, r) to (l', r') ---------- *)
+Definition moved (l : Z) (r : list Z) (l' : Z) (r' : list Z) : Prop :=
+  suffix r' r /\ l' + nbreaks r' = l + nbreaks r.
+
+Lemma moved_refl l r : moved l r l r.
+Proof. split; [apply suffix_refl|reflexivity]. Qed.
+
+Lemma moved_trans l r l1 r1 l2 r2 : moved l r l1 r1 -> moved l1 r1 l2 r2 -> moved l r l2 r2.
+Proof.
+  intros [S1 E1] [S2 E2]. split; [eapply suffix_trans; eauto|lia].
+Qed.
+
+Lemma moved_plain l c t : c <> 10 -> c <> 13 -> moved l (c :: t) l t.
+Proof. intros. split; [apply suffix_cons|]. rewrite nbreaks_plain; auto. Qed.
+
+Lemma moved_lf l t : moved l (10 :: t) (l + 1) t.
+Proof. split; [apply suffix_cons|]. rewrite nbreaks_lf. lia. Qed.
+
+Lemma moved_crlf l t : moved l (13 :: 10 :: t) (l + 1) t.
+Proof.
+  split; [eapply suffix_trans; apply suffix_cons|]. rewrite nbreaks_crlf. lia.
+Qed.
+
+Lemma moved_cr l t : hd0 t <> 10 -> moved l (13 :: t) (l + 1) t.
+Proof. intros. split; [apply suffix_cons|]. rewrite nbreaks_cr; auto. lia. Qed.
+
+Lemma moved_length l r l' r' : moved l r l' r' -> (length r' <= length r)%nat.
+Proof. intros [S _]. now apply suffix_length. Qed.
+
+(* ---------- good results ---------- *)
+(* relative to a start cursor (l, r): not out of bounds, not out of fuel, an error position is a
+   cursor reached from the start, a value satisfies P *)
+Definition good {A} (l : Z) (r : list Z) (P : A -> Prop) (x : res A) : Prop :=
+  match x with
+  | Ok a => P a
+  | SyntaxErr le at_ _ => moved l r le at_
+  | OutOfBounds => False
+  | OutOfFuel => False
+  end.
+
+Lemma good_bind {A B} l r (P : A -> Prop) (Q : B -> Prop) (x : res A) (k : A -> res B) :
+  good l r P x -> (forall a, P a -> good l r Q (k a)) -> good l r Q (bind x k).
+Proof. destruct x; cbn; auto. Qed.
+
+Lemma good_shift {A} l r l1 r1 (P Q : A -> Prop) (x : res A) :
+  moved l r l1 r1 -> good l1 r1 P x -> (forall a, P a -> Q a) -> good l r Q x.
+Proof.
+  intros M G I. destruct x; cbn in *; auto. eapply moved_trans; eauto.
+Qed.
+
+Lemma good_weaken {A} l r (P Q : A -> Prop) (x : res A) :
+  good l r P x -> (forall a, P a -> Q a) -> good l r Q x.
+Proof. intros G I. destruct x; cbn in *; auto. Qed.
+
+(* ---------- character classes ---------- *)
+Lemma is_space_nz c : is_space c = true -> c <> 0.
+Proof. unfold is_space. lia. Qed.
+
+Lemma is_digit_nz c : is_digit c = true -> c <> 0 /\ c <> 10 /\ c <> 13.
+Proof. unfold is_digit. lia. Qed.
+
+Lemma is_hex_nz c : is_hex c = true -> c <> 0 /\ c <> 10 /\ c <> 13.
+Proof. unfold is_hex, is_digit. lia. Qed.
+
+Lemma back_run_run l : back_run l = length (run l).
+Proof.
+  induction l as [|c t IH]; [reflexivity|]. cbn [back_run run]. unfold is_break, brk.
+  destruct ((c =? 10) || (c =? 13)); cbn; congruence.
+Qed.
